@@ -46,6 +46,7 @@ theorem service0_flow :
        "if m.Header.Action != object.AuthenticateActionID {", "call from.SendError",
        "return from.SendError(m, ErrActionNotFound)", "}",
        "call s.wrapAuthenticate", "if err != nil {", "call from.SendError", "return from.SendError(m, err)", "}",
+       "if m.Header.Type == net.Post {", "return nil", "}",
        "call from.SendReply", "return from.SendReply(m, response)"] ∧
     Gen.Auth.wrapAuthenticateFlow =
       ["call ReadCapabilityMap", "if err != nil {", "return nil, err", "}",
